@@ -526,17 +526,18 @@ func c12Profiles(n4, n6, kpd int) (map[string]*ip.IPv4Profile, map[string]*ip.IP
 
 // ---------------------------------------------------------------- case description
 type c12New struct {
-	idx                               int
-	bound, approved, created, v6bound bool
-	v4, v6, pd                        string // "-", "a", "s<k>"
-	lease4, lease6                    int
-	age4, age6                        string // seconds or "z"
+	idx                                     int
+	bound, rel4, approved, created, v6bound bool
+	v4, v6, pd                              string // "-", "a", "s<k>"
+	lease4, lease6                          int
+	age4, age6                              string // seconds or "z"
 }
 
 func c12ParseNew(f []string) c12New {
 	n := c12New{}
 	n.idx, _ = strconv.Atoi(f[1])
 	n.bound = strings.Contains(f[2], "b")
+	n.rel4 = strings.Contains(f[2], "r") && !n.bound
 	n.approved = strings.Contains(f[2], "a")
 	n.created = strings.Contains(f[2], "c")
 	n.v6bound = strings.Contains(f[2], "6")
@@ -588,6 +589,7 @@ type c12Env struct {
 	tick      int
 	tickets   map[int]*c12Put // assigned parked puts
 	unarrived map[int]c12Want // issued, not yet at the store
+	forced    map[int]bool    // stamps of puts that were let through while an op was blocked
 	used      map[int]bool
 	t0        time.Time
 }
@@ -649,6 +651,7 @@ func (e *c12Env) forget(p *c12Put) {
 		}
 	}
 	if n := c12StampOf(p.val); n >= 0 {
+		e.forced[n] = true
 		if w, ok := e.unarrived[n]; ok && w.key == p.key {
 			delete(e.unarrived, n)
 		}
@@ -760,12 +763,29 @@ func (e *c12Env) sameKeyParkedOther(key, want string) bool {
 	return false
 }
 
+func (e *c12Env) hasUnarrived(key string) bool {
+	for _, w := range e.unarrived {
+		if w.key == key {
+			return true
+		}
+	}
+	return false
+}
+
+// after a put of key was completed: a write queued behind it (if any) reaches the store now
+func (e *c12Env) settle(key string) {
+	if e.hasUnarrived(key) {
+		c12WaitFor(60*time.Millisecond, func() bool { return e.sameKeyParked(key) })
+	}
+}
+
 // finish: done:<t>
 func (e *c12Env) finish(t int) {
 	if p := e.tickets[t]; p != nil {
 		delete(e.tickets, t)
 		if q := e.fake.take(func(x *c12Put) bool { return x == p }); q != nil {
 			e.fake.complete(q, true)
+			e.settle(q.key)
 		}
 		return
 	}
@@ -781,15 +801,17 @@ func (e *c12Env) finish(t int) {
 			delete(e.tickets, t)
 			if q := e.fake.take(func(x *c12Put) bool { return x == p }); q != nil {
 				e.fake.complete(q, true)
+				e.settle(q.key)
 			}
 			return
 		}
 		p := e.fake.take(func(x *c12Put) bool { return x.key == w.key })
-		if p != nil {
-			e.fake.complete(p, true)
-			e.forget(p)
+		if p == nil {
+			return // nothing of this key is in flight: the implementation dropped the write (superseded)
 		}
-		// wait for the next write of this key to reach the store; none: the implementation dropped it
+		e.fake.complete(p, true)
+		e.forget(p)
+		// the next queued write of this key reaches the store; none: dropped
 		if !c12WaitFor(60*time.Millisecond, func() bool { return e.sameKeyParked(w.key) }) {
 			return
 		}
@@ -993,6 +1015,46 @@ func (e *c12Env) runCase(f []string) string {
 			r := e.runOp("", func() { e.p.checkpoint(i) })
 			e.expect(t, c12SessID(i), `"`+st+`"`)
 			out = append(out, fmt.Sprintf("ck%s %d %s", r, t, e.log.take()))
+		case "ckrel", "ck2":
+			// scheduling stress: two component calls back to back on one goroutine with a single P, so that a
+			// goroutine spawned by the first call cannot run before the second call is made.  The repaired
+			// model assumes write order = call order.
+			i, _ := strconv.Atoi(a[1])
+			if !e.p.live(i) {
+				out = append(out, "skip")
+				continue
+			}
+			t := e.tick
+			e.tick += 2
+			st := fmt.Sprintf("t%d", t)
+			st2 := fmt.Sprintf("t%d", t+1)
+			e.p.stamp(i, st)
+			prev := runtime.GOMAXPROCS(1)
+			r := e.runOp(c12SessID(i), func() {
+				e.p.checkpoint(i)
+				if a[0] == "ckrel" {
+					e.p.release(i)
+				} else {
+					e.p.stamp(i, st2)
+					e.p.checkpoint(i)
+				}
+			})
+			runtime.GOMAXPROCS(prev)
+			if a[0] == "ckrel" {
+				// the release has completed: an ordering implementation has applied-then-deleted or dropped the
+				// checkpoint; a put that still turns up was issued after the delete
+				if !e.forced[t] && !e.claim(t, c12SessID(i), `"`+st+`"`, 20*time.Millisecond) {
+					e.unarrived[t] = c12Want{c12SessID(i), `"` + st + `"`}
+				}
+			} else {
+				e.expect(t, c12SessID(i), `"`+st+`"`)
+			}
+			if a[0] == "ck2" {
+				e.expect(t+1, c12SessID(i), `"`+st2+`"`)
+				out = append(out, fmt.Sprintf("ck2%s %d %s", r, t, e.log.take()))
+			} else {
+				out = append(out, fmt.Sprintf("ckrel%s %d %s", r, t, e.log.take()))
+			}
 		case "cks":
 			i, _ := strconv.Atoi(a[1])
 			if !e.p.live(i) {
@@ -1061,7 +1123,7 @@ func c12Run(t *testing.T, mk func(e *c12Env) c12Proto, dpPrefix string, ns strin
 			}()
 			lg := &c12Log{}
 			e := &c12Env{log: lg, fake: &c12Fake{data: map[string][]byte{}, log: lg, opGID: -2}, sb: newC12SB(lg, dpPrefix),
-				bus: &c12Bus{log: lg}, cache: newC12Cache(), tickets: map[int]*c12Put{}, unarrived: map[int]c12Want{}, used: map[int]bool{}, t0: time.Now()}
+				bus: &c12Bus{log: lg}, cache: newC12Cache(), tickets: map[int]*c12Put{}, unarrived: map[int]c12Want{}, forced: map[int]bool{}, used: map[int]bool{}, t0: time.Now()}
 			e.ns = ns
 			e.n4, _ = strconv.Atoi(f[1])
 			e.n6, _ = strconv.Atoi(f[2])
